@@ -154,6 +154,7 @@ func (c *cacheRig) run(r Run) procResult {
 	switch kind {
 	case "missing":
 		path = c.e.noPath
+		p.FailAfter = 3 // for a fallback toolchain (GOROOT) that a changed profiler might start: it fails partway
 	case "noexec":
 		// the tool is found but cannot be started (for the specification: cmd.Run fails without output, as "missing")
 		path = []string{c.e.noExec, c.e.noInterp}[j%2]
